@@ -1,5 +1,3 @@
-use subslice::SubsliceExt as _;
-
 #[derive(Debug)]
 pub(super) enum CompatibleDocument<'a> {
     WellFormed(&'a [u8]),
@@ -41,7 +39,13 @@ fn fix_ring_doc(bytes: &[u8]) -> Option<Vec<u8>> {
         return None;
     }
 
-    let idx = bytes.find(RING_TEMPLATE_CONTEXT_SPECIFIC)?;
+    // In the documents written by ring, the marker is followed by the unused bits count and the 32
+    // bytes of the public key, and nothing else. The same bytes can occur anywhere in a private
+    // key, so only this position is looked at.
+    let idx = bytes.len().checked_sub(RING_TEMPLATE_CONTEXT_SPECIFIC.len() + 33)?;
+    if !bytes[idx..].starts_with(RING_TEMPLATE_CONTEXT_SPECIFIC) {
+        return None;
+    }
 
     let mut doc = bytes.to_vec();
 
